@@ -55,6 +55,8 @@ def hist_streams(prop, focus, quick_n, thorough_n, exhaustive_len=(1, 2)):
     chk = make_check(prop)
     out = [Stream('random-' + focus, chk, strategy=lambda: histgen.history(focus),
                   examples={'quick': quick_n, 'thorough': thorough_n})]
+    out.append(Stream('random-large-universe', chk, strategy=lambda: histgen.history(focus, large=True),
+                      examples={'quick': 400, 'thorough': 6000}))
     if focus != 'general':
         out.append(Stream('random-general', chk, strategy=lambda: histgen.history('general'),
                           examples={'quick': quick_n // 3, 'thorough': thorough_n // 3}))
